@@ -27,6 +27,13 @@ def goWrapU (m : Int) (x : Int) : Int := x % m
 def goIndex? {α : Type} (xs : List α) (i : Int) : Option α :=
   if i < 0 then none else xs[i.toNat]?
 
+/-- `copy(dst, src)`: `dst` afterwards — its first `min (len dst) (len src)` elements are those of
+`src`, the length is unchanged. -/
+def goCopy {α : Type} (dst src : List α) : List α := src.take dst.length ++ dst.drop src.length
+
+/-- The result of `copy(dst, src)`: the number of elements copied. -/
+def goCopyN {α : Type} (dst src : List α) : Int := (min dst.length src.length : Nat)
+
 /-- One iteration of a translated `for … range` loop. -/
 inductive Step (σ ρ : Type) where
   /-- fall through to the next element (also `continue`) -/
@@ -106,6 +113,29 @@ theorem firstErr_eq_none {l : List (Option String)} : firstErr l = none ↔ ∀ 
 
 @[simp] theorem wrapErr_eq_none (n : String) (e : Option String) : wrapErr n e = none ↔ e = none := by
   cases e <;> simp [wrapErr]
+
+@[simp] theorem goCopy_length {α : Type} (dst src : List α) : (goCopy dst src).length = dst.length := by
+  simp only [goCopy, List.length_append, List.length_take, List.length_drop]; omega
+
+theorem goCopy_take {α : Type} (dst src : List α) (h : src.length ≤ dst.length) :
+    (goCopy dst src).take src.length = src := by
+  simp [goCopy, List.take_of_length_le h]
+
+theorem goCopyN_of_le {α : Type} (dst src : List α) (h : src.length ≤ dst.length) :
+    goCopyN dst src = src.length := by
+  simp only [goCopyN]; rw [Nat.min_eq_right h]
+
+/-- A translated range loop whose body, on the elements of `xs` and on states that satisfy the
+invariant `P`, always falls through to the next element with the state `g s x`, is a left fold. -/
+theorem goRangeFrom?_fold {α σ ρ : Type} (P : σ → Prop) (g : σ → α → σ) (f : σ → Int → α → Option (Step σ ρ)) :
+    ∀ (xs : List α) (i : Int) (s : σ), P s →
+      (∀ s i x, x ∈ xs → P s → f s i x = some (.next (g s x)) ∧ P (g s x)) →
+      goRangeFrom? i xs s f = some (.inl (xs.foldl g s)) ∧ P (xs.foldl g s)
+  | [], _, _, hs, _ => ⟨rfl, hs⟩
+  | x :: xs, i, s, hs, h => by
+    rw [goRangeFrom?, (h s i x (by simp) hs).1]
+    exact goRangeFrom?_fold P g f xs (i + 1) (g s x) (h s i x (by simp) hs).2
+      (fun s i y hy => h s i y (by simp [hy]))
 
 theorem goWrapU_of_range {m x : Int} (h0 : 0 ≤ x) (h1 : x < m) : goWrapU m x = x :=
   Int.emod_eq_of_lt h0 h1
